@@ -104,7 +104,8 @@ check("C11", "Same monitor: every refresh query must be explained by an unused 8
       Q_NOTE, Q_TECH, "DESIGN.md section 7 C11")
 check("C13", "Same monitor: per-channel protocol automaton (first event SearchStarted, ServiceFound before ServiceResolved, exactly the owed SearchStopped "
       "in the iteration of stop / timeout / shutdown and nothing after it, cache-only browse never queries), no query for a stopped type or host "
-      "(falls out of C19.explained), PTRs of a stopped browse forgotten (no replay).", Q_NOTE, Q_TECH, "DESIGN.md section 7 C13")
+      "(falls out of C19.explained), PTRs of a stopped browse forgotten (no replay); at component level what remove_service_type drops (PTRs, the "
+      "instances' SRV / TXT, their hosts' addresses in any spelling) is replayed through Cache!Forget by TraceCache (C13.cache-forget).", Q_NOTE, Q_TECH, "DESIGN.md section 7 C13")
 check("C17", "Same monitor over driver family 'resolve': AddressesFound only for live addresses received for that host (case-insensitive) on the tagged "
       "interface, every such address reported, AddressesRemoved exactly when the record expired or was withdrawn, A+AAAA asked together on the "
       "doubling schedule, 80 % refresh (owed, and no address runs out without it ever having been sent: also under policy W, family resolvew), "
@@ -137,7 +138,7 @@ check("C08", "Three legs. (a) Compare.tla (class, type, RDATA, count) is model-c
       "encodability. (b) Two or three real daemons in one simulated world (and single daemons with injected conflicts / competing probes at every "
       "probe step) run under virtual time; each daemon's trace is judged by TraceRespond, which reads the names in use off the wire and then requires "
       "every later probe, announcement, answer, additional and goodbye to use them (plus no-take after a conflict, back-off then three fresh probes, "
-      "NameChange events); (c) the combined trace is judged by TraceConflict: all announced, exactly one holds the original names, no shared name.",
+      "NameChange events, and after a competing probe built to win the comparison no probe for a second: C08.backoff); (c) the combined trace is judged by TraceConflict: all announced, exactly one holds the original names, no shared name.",
       RESP_NOTE + " (d) ProbeMech.tla, a mechanism-level model of probing / tiebreak / back-off / rename / defence for 2-3 daemons on one link, is "
       "model-checked (no shared name, three probes before an announcement, one winner, everybody announced - liveness; without the tiebreak it must "
       "fail) and its 810 start-time vectors are replayed on real daemons (family probecases); the names the daemons end up with must be one of the "
@@ -158,7 +159,7 @@ check("C18", "Interfaces.tla states which addresses of the host's table a daemon
 
 check("C14", "Lifecycle.tla models the handles and the daemon thread with one step function per atomic step of the code (try_send, try_recv + execution, "
       "clean-up, drain of the queue, drop of the receiver, Shutdown reply, drop of the daemon state). MCLifecycle checks every interleaving of calls of every "
-      "kind with those steps: clean-up exactly once, everything withdrawn / every search stopped before Shutdown is reported, one Shutdown reply, every call "
+      "kind with those steps: clean-up exactly once, everything withdrawn (on every interface and IP version it was announced on) / every search stopped before Shutdown is reported, one Shutdown reply, every call "
       "after a received Shutdown fails with DaemonShutdown (status(): Shutdown), search-channel protocol, nobody left waiting (NoDangling), Exit always "
       "served (liveness). MCLifeCases enumerates every schedule (commands of every kind around an Exit, every cut into loop iterations); the driver replays "
       "them on a real daemon through the gate (also holding the daemon between its last look at the queue and the drop of the receiver) and TraceLifecycle "
